@@ -278,6 +278,7 @@ func runC18(e *Env) {
 	for _, n := range si.notes {
 		r.Note("%s", n)
 	}
+	checkFlagSplit(e, p, si)
 	// ---------------- E4.profile
 	checkSingleDocument(e, p)
 	checkProfileLiteral(e, p)
